@@ -2,7 +2,7 @@
 from . import respfam
 
 THEOREMS = ["Goag.Resp.documented_arm_exact", "Goag.Resp.documented_reaches_arm", "Goag.Resp.undocumented_to_default", "Goag.Resp.undocumented_is_error",
-            "Goag.RespHdr.read_write_header", "Goag.RespHdr.unset_iff_no_lines", "Goag.RespHdr.required_absent_is_error", "Goag.RespHdr.parseLeaves_fmtLeaves"]
+            "Goag.RespHdr.read_write_header", "Goag.RespHdr.read_write_all", "Goag.RespHdr.valuesOf_writeAll_absent", "Goag.RespHdr.unset_iff_no_lines", "Goag.RespHdr.required_absent_is_error", "Goag.RespHdr.parseLeaves_fmtLeaves"]
 
 
 def check(ctx):
